@@ -48,6 +48,14 @@ CLAIMED = {
          "Every Copy() receiver type x zero / one-hot per field per menu value / all-populated, nested to depth 2 (quick) or 3 (thorough): no panic, canonical deep equality incl. unexported fields, no shared mutable container, mutation probes both ways; a field the generator cannot populate is reported.",
          "Field menus are generated by kind; interface-typed fields use a registry (Constraint, Default, AddrStep).",
          "DESIGN.md §6 C17"),
+ "C15": ("exploration", "bounded-exhaustive enumeration of every combination of injected violations, compared with a reference validator (E2 model compare)",
+         "A reference validator written from the statement over the syntax tree gives the expected multiset of (severity, kind, item, admissible subject extent); compared with ValidateFile on every combination of injected violations at two nesting levels and on every file of the structure-template sweep (incl. broken files); Validate == union of ValidateFile.",
+         "The hclsyntax tree is trusted as the account of what is written; the dynamic-block construct's shape is taken from its documentation.",
+         "DESIGN.md §6 C15"),
+ "C18": ("exploration", "bounded-exhaustive differential enumeration: original vs translated file, all insertion points x inserted-line menu x all queries x all cursors",
+         "For every file and every insertion point before a top-level item / after the last one, every query at every cursor is asked in the original and (at the moved cursor) in the translated file; canonical results must be equal after un-shifting positions. Both worlds are fully re-collected.",
+         "Premises: token sequence and parser tree of the translated file equal the original's, shifted (else the case is counted as skipped); a cursor exactly at the insertion point may match either translation.",
+         "DESIGN.md §6 C18"),
 }
 
 NOT_APPLICABLE = {
